@@ -334,7 +334,7 @@ def make_trace_hdd(tid, rng, nops=30, **opt):
         storages, files, exts, bases = [], {}, [], []
         start = 0
         # snapshots: every storage holds one image per snapshot; the disk is read through the chain of the top snapshot
-        depth = rng.choice([1, 1, 2, 3])
+        depth = rng.choice([2, 3]) if opt.get("deep") else rng.choice([1, 1, 2, 3])
         guids = [g] + ["{%08x-1111-2222-3333-444444444444}" % (j + 1) for j in range(1, depth)]
         FM = 4
         for i in range(k):
